@@ -259,6 +259,31 @@ def plainSpec (d : D128) : List Char :=
     if f < ds.length then sign ++ ds.take (ds.length - f) ++ ['.'] ++ ds.drop (ds.length - f)
     else sign ++ ['0', '.'] ++ zeros (f - ds.length) ++ ds
 
+/-- **Specification reader for the lexical forms of a decimal number** (the decNumber numeric
+string, which contains the lexical spaces of `xsd:integer`, `xsd:decimal`, `xsd:double` without
+the special values, and the FEEL literal):
+`[+-]? ( digits ('.' digits?)? | '.' digits ) ( [eE] [+-]? digits )?`.
+Result: sign, all mantissa digits read as one integer `N`, and `e` = the written exponent minus
+the number of fraction digits — the text denotes exactly `(-1)^sign · N · 10^e`.  `none`: the
+text is not of this form (nothing before or after it, no blanks). -/
+def lexValue (s : List Char) : Option (Bool × Nat × Int) :=
+  match stripSign s with
+  | (neg, s1) =>
+    match spanDigits s1 with
+    | (ip, r1) =>
+      match fracPart r1 with
+      | (fp, r2) =>
+        if ip.isEmpty ∧ fp.isEmpty then none
+        else
+          match parseExp r2 with
+          | none => none
+          | some e => some (neg, readNat (ip ++ fp), e - (fp.length : Int))
+
+/-- number of mantissa digits written in a text of the form above (0 otherwise) -/
+def lexDigits (s : List Char) : Nat :=
+  match spanDigits (stripSign s).2 with
+  | (ip, r1) => ip.length + (fracPart r1).1.length
+
 /-- an optional leading `-` -/
 def stripMinus : List Char → Bool × List Char
   | '-' :: r => (true, r)
